@@ -79,6 +79,12 @@ def _sources(f: Func, loop: ast.For) -> List[str]:
                 t = unparse(st.test)
                 kind = None
                 c = st.test
+                # `idx < num_args and <something about the parameter>`: the comparison of the index is what selects the source
+                if isinstance(c, ast.BoolOp) and isinstance(c.op, ast.And):
+                    cmp_ = [v for v in c.values if isinstance(v, ast.Compare) and len(v.ops) == 1 and isinstance(v.ops[0], (ast.Lt, ast.LtE, ast.Gt, ast.GtE, ast.In))]
+                    if cmp_:
+                        c = cmp_[0]
+                        t = unparse(c)
                 if isinstance(c, ast.Compare) and len(c.ops) == 1:
                     sides = [c.left, c.comparators[0]]
                     if isinstance(c.ops[0], (ast.Lt, ast.LtE, ast.Gt, ast.GtE)) and idx_var and any(isinstance(x, ast.Name) and x.id in idx_names for x in sides):
@@ -131,6 +137,49 @@ def pair_keys_rule(ctx: Ctx, rule: str) -> int:
                     stmt_key(pair), what="argument hashes are combined under one constant key: bindings that permute the values share a signature")
     return n8
 
+
+
+def star_args_bound_whole(ctx: Ctx, rule: str) -> int:
+    """A binder that accepts `*args` parameters (its refusal test on the parameter kind lets Parameter.VAR_POSITIONAL through) binds to such a
+    parameter ALL the remaining positional arguments: under a test on VAR_POSITIONAL it consumes the slice `<positional>[idx:]`.  Binding
+    only `<positional>[idx]` leaves the second and later values out of the signature: g(1, 2) and g(1, 3) share it."""
+    rep = ctx.report
+    prog = ctx.prog
+    rt, lit = binders(ctx)
+    n = 0
+    for f in (rt, lit):
+        loop = _param_loop(f)
+        if loop is None:
+            continue
+        idx_var, _name = _loop_vars(loop)
+        pos = f.positional_params()[1] if len(f.positional_params()) > 1 else None
+        accepted = None
+        for c in ast.walk(loop):
+            if isinstance(c, ast.Compare) and len(c.ops) == 1 and isinstance(c.ops[0], (ast.NotIn, ast.In)) and isinstance(c.comparators[0], (ast.Tuple, ast.List, ast.Set)) \
+                    and isinstance(c.left, ast.Attribute) and c.left.attr == "kind":
+                accepted = {x.attr for x in c.comparators[0].elts if isinstance(x, ast.Attribute)}
+                break
+        if accepted is None:
+            continue
+        n += 1
+        desc = f"{f.name}: a *args parameter binds all the remaining positional arguments"
+        if "VAR_POSITIONAL" not in accepted:
+            rep.ok(rule, f.qname, f"{f.name}: *args parameters are refused (accepted kinds {sorted(accepted)})", f.loc(loop))
+            continue
+        ok_site = None
+        for st in ast.walk(loop):
+            if isinstance(st, ast.If) and any(isinstance(x, ast.Attribute) and x.attr == "VAR_POSITIONAL" for x in ast.walk(st.test)):
+                for y in ast.walk(ast.Module(body=st.body, type_ignores=[])):
+                    if isinstance(y, ast.Subscript) and isinstance(y.slice, ast.Slice) and y.slice.upper is None and isinstance(y.value, ast.Name) and y.value.id == pos \
+                            and y.slice.lower is not None and idx_var and any(isinstance(z, ast.Name) and z.id == idx_var for z in ast.walk(y.slice.lower)):
+                        ok_site = y
+        if ok_site is not None:
+            rep.ok(rule, f.qname, desc + f" (`{unparse(ok_site, 30)}`)", f.loc(ok_site))
+        else:
+            rep.bad(rule, f.qname, desc, f.loc(loop), [f"{f.loc(loop)}: Parameter.VAR_POSITIONAL is among the accepted kinds {sorted(accepted)} but no branch on it consumes `{pos}[{idx_var}:]`",
+                    "`def g(*vals): return dds.keep('/p', ident, vals)`: g(1, 2) and g(1, 3) bind only the first value to `vals`: same signature, the second call is served (1, 2)"],
+                    "star-args-first-only", what="a *args parameter is bound to the first of its values only")
+    return n
 
 
 def run(ctx: Ctx) -> None:
@@ -418,6 +467,9 @@ def run(ctx: Ctx) -> None:
     rep.rule("C13.R11", "the binders read the parameters of the function they are given, every time: no module-level memo (of signatures, of bindings) is consulted")
     no_module_memo(ctx, "C13.R11", "a signature memo keyed by the function's name survives its redefinition: after `def f(x, k=1)` was used and f redefined with `k=2`, the call f(x) "
                                    "is still bound with the old default and served the old result")
+    rep.rule("C13.R12", "a binder that accepts *args parameters binds all the remaining positional arguments to them (the slice from the parameter's index on), not the first one only")
+    n12 = star_args_bound_whole(ctx, "C13.R12")
+    rep.floor("C13.R12", n12, 2)
     from .c05 import falsy_distinct
     rep.rule("C13.R10", "calls that bind a different value get a different signature, falsy values included: None, 0, 0.0, \"\", [] and {} are digested from different bytes")
     n10 = falsy_distinct(ctx, "C13.R10")
@@ -449,6 +501,16 @@ def _site(ctx: Ctx, g: Func, call: ast.Call, arg: ast.AST) -> None:
     if kind is not None:
         rep.ok("C13.R2", g.qname, desc + f" ({kind})", where)
         return
+    # the values of a *args parameter: each remaining positional argument, through a helper of the binder that has its own hashing site
+    if isinstance(arg, (ast.ListComp, ast.GeneratorExp)) and len(arg.generators) == 1 and not arg.generators[0].ifs and isinstance(arg.generators[0].target, ast.Name):
+        gen = arg.generators[0]
+        it_kind, _b = _classify(gen.iter)
+        helpers = set(g.nested) | (set(g.parent.nested) if getattr(g, "parent", None) is not None else set())
+        if it_kind == "positional" and isinstance(gen.iter, ast.Subscript) and isinstance(gen.iter.slice, ast.Slice) and isinstance(arg.elt, ast.Call) \
+                and isinstance(arg.elt.func, ast.Name) and arg.elt.func.id in helpers and len(arg.elt.args) == 1 and isinstance(arg.elt.args[0], ast.Name) \
+                and arg.elt.args[0].id == gen.target.id:
+            rep.ok("C13.R2", g.qname, desc + f" (every remaining positional argument, each through `{arg.elt.func.id}`)", where)
+            return
     # abstract evaluation of the normaliser on the three classes
     srcs = [n for n in ast.walk(arg) if _classify(n)[0] is not None]
     if not srcs:
